@@ -216,7 +216,7 @@ func runC13(c *ShardCtx) {
 	c.W.Srv.Timeout = 10e9
 	idx := 0
 	// (a) valid texts x flag sets
-	leaves := []*peg.Expr{peg.Lit("a"), peg.LitI("b"), peg.Cls(false, true, "a-c", `\pL`), peg.Cls(true, false, "a"), peg.Cls(false, false), peg.Any(), peg.Ref("B"), peg.Ref("A"), peg.Ref("Undefined"),
+	leaves := []*peg.Expr{peg.Lit("a"), peg.LitI("b"), peg.Cls(false, true, "a-c", `\pL`), peg.Cls(true, false, "a"), peg.Cls(false, false), peg.Cls(false, false, "a-é"), peg.Cls(true, true, "!-ÿ", "Ā-Ȁ"), peg.Cls(false, true, "K", `\p{Lu}`), peg.Any(), peg.Ref("B"), peg.Ref("A"), peg.Ref("Undefined"),
 		peg.AndCode(1), peg.NotCode(2), peg.StateCode(3), peg.Throw("l"), peg.Lit("")}
 	en := peg.NewEnumerator(peg.Alphabet{Leaves: leaves, Unary: allUnary, Seq: true, Choice: true, MaxArity: 2, NestSame: true, Recover: [][]string{{"l"}, {"l", "m"}}})
 	fs32 := flagSets32()
